@@ -59,7 +59,7 @@ class Gen:
         if c == 10 and env.get("calls_ok") and self.calls < 2 and rs.below(2):
             # a helper whose for-loop ends in return (first set bit wins), with a fall-through return after the loop
             self.calls += 1
-            return ["prio", rs.choice(["d", "u"]), self.vatom(env), self.vatom(env)]
+            return ["prio", rs.choice(["d", "u"]), self.vatom(env), self.vatom(env), rs.below(2)]
         if c == 10 and env.get("calls_ok") and self.calls < 2:
             self.calls += 1
             return ["pick", self.cond(env, depth + 1), self.vatom(env), self.vatom(env), rs.below(2)]
@@ -422,7 +422,7 @@ def r_v(e):
     if k == "pick":
         return f"pick({r_c(e[1])}, {r_v(e[2])}, y={r_v(e[3])})" if e[4] else f"pick({r_c(e[1])}, {r_v(e[2])}, {r_v(e[3])})"
     if k == "prio":
-        return f"prio({r_name(e[1])}, {r_v(e[2])}, {r_v(e[3])})"
+        return f"{'prio_after' if len(e) > 4 and e[4] else 'prio'}({r_name(e[1])}, {r_v(e[2])}, {r_v(e[3])})"
     if k == "sl2":
         return f"{r_name(e[1])}[{e[2] + 1}:{e[2]}].unsigned.resize(4)"
     if k == "raw2":
@@ -587,6 +587,12 @@ def render(prog, attrs=None):
         "            return x + i",
         "    else:",
         "        return y",
+        "",
+        "def prio_after(vec, x, y):",
+        "    for i in range(3):",
+        "        if vec[i]:",
+        "            return x",
+        "    return y",
         "",
         "def cmpsel(c, x, y):",
         "    if c:",
